@@ -1,5 +1,6 @@
 """C13 - explicit seeds reproduce orders; frozen copies stay frozen; copies are faithful."""
 import json
+import common
 import random
 import warnings
 
@@ -90,6 +91,7 @@ def config_attrs(obj):
 
 
 def seeded_pipeline(seed, kind, n):
+    common.gc_point()
     base = lazy_dataset.new({f'k{i}': i for i in range(n)})
     rs = np.random.RandomState(seed)
     if kind == 'reshuffle':
